@@ -106,13 +106,40 @@ def run_relational(prop, progs, build, tier, seed, level, rule, ex_kw, case_kw=N
             for k in tot:
                 tot[k] += stats.get(k, 0)
             samples += stats["samples"]
-    # report
+    nviol, tool, seen_known = report_mismatches(prop, allm)
+    cov = dict(states=max(1, tot["distinct"]), transitions=max(1, tot["states"]),
+               traces_validated_against_impl=tot["cases"], samples=samples[:3],
+               evaluations=tot["cases"], distinct_nontrivial=tot["nontrivial"], rule=rule,
+               programs=tot["programs"], programs_dropped=tot["dropped"] + tot["compile_errors"] + tot["aborted"],
+               reference_positions=tot["nodes"], events=tot["events"], tool_level_mismatches=tool,
+               known_findings_seen=seen_known, exhaustive=False)
+    if design_stats:
+        cov["states"] += design_stats.get("distinct", 0)
+        cov["transitions"] += design_stats.get("states", 0)
+        cov["design_level"] = design_stats
+    if extra_cov:
+        cov.update(extra_cov)
+    lib.write_evidence(prop, tier, seed, level, cov, time.time() - t0, nviol, assumptions)
+    lib.log("[%s] cases=%d events=%d nodes=%d nontrivial=%d violations=%d tool=%d wall=%.1fs" % (
+        prop, tot["cases"], tot["events"], tot["nodes"], tot["nontrivial"], nviol, tool, time.time() - t0))
+    if tot["cases"] == 0 or tool > max(3, tot["cases"] // 5):
+        raise lib.ToolError("%s: too many tool-level mismatches (%d of %d cases)" % (prop, tool, tot["cases"]))
+    return nviol
+
+
+def report_mismatches(prop, allm):
+    """prints VIOLATION / KNOWN-FINDING lines; returns (violations, tool-level mismatches, known fingerprints seen)"""
     known = {k["fp"]: k for k in lib.known_findings() if k["prop"] == prop}
     nviol = 0
     tool = 0
     seen_known = set()
     seen_fp = {}
     for m in allm:
+        if m["rule"].startswith("Handoff."):
+            # a fault outside this property's rule (e.g. a panic in an operation the rule says nothing about):
+            # it belongs to the property named in the rule, whose own check looks for it
+            lib.log("[%s] handed to %s: %s in %s" % (prop, m["rule"][8:], m["comp"], m["case"]))
+            continue
         if m["rule"].startswith("Calib.") or m["rule"] in ("Uncovered", "UnknownClass"):
             tool += 1
             lib.log("[%s] tool-level mismatch %s %s in %s" % (prop, m["rule"], m["comp"], m["case"]))
@@ -134,24 +161,7 @@ def run_relational(prop, progs, build, tier, seed, level, rule, ex_kw, case_kw=N
         lib.log("   %s %s" % (fp, json.dumps(m["explain"])[:400]))
     if seen_fp:
         lib.log("[%s] violation fingerprints: %s" % (prop, json.dumps(seen_fp)))
-    cov = dict(states=max(1, tot["distinct"]), transitions=max(1, tot["states"]),
-               traces_validated_against_impl=tot["cases"], samples=samples[:3],
-               evaluations=tot["cases"], distinct_nontrivial=tot["nontrivial"], rule=rule,
-               programs=tot["programs"], programs_dropped=tot["dropped"] + tot["compile_errors"] + tot["aborted"],
-               reference_positions=tot["nodes"], events=tot["events"], tool_level_mismatches=tool,
-               known_findings_seen=sorted(seen_known), exhaustive=False)
-    if design_stats:
-        cov["states"] += design_stats.get("distinct", 0)
-        cov["transitions"] += design_stats.get("states", 0)
-        cov["design_level"] = design_stats
-    if extra_cov:
-        cov.update(extra_cov)
-    lib.write_evidence(prop, tier, seed, level, cov, time.time() - t0, nviol, assumptions)
-    lib.log("[%s] cases=%d events=%d nodes=%d nontrivial=%d violations=%d tool=%d wall=%.1fs" % (
-        prop, tot["cases"], tot["events"], tot["nodes"], tot["nontrivial"], nviol, tool, time.time() - t0))
-    if tot["cases"] == 0 or tool > max(3, tot["cases"] // 5):
-        raise lib.ToolError("%s: too many tool-level mismatches (%d of %d cases)" % (prop, tool, tot["cases"]))
-    return nviol
+    return nviol, tool, sorted(seen_known)
 
 
 def trim(rec):
